@@ -203,13 +203,23 @@ package bmtree
 //@     use pc32_maskdiff(int(height), int(tz))
 
 //@ func Decode returns (rst)
-//@   requires 1 <= bitmapSize
+//@   requires 1 <= bitmapSize && len(bm) < 1<<31
+//@   useret forall k int :: decSet_def(bitmapSize, bm, rst[k])
+//@   instdepthret 2
 //@   ensures forall k int :: 0 <= k && k < len(rst) ==> stored(bitmapSize, rst[k]) && int(preIdx(bitmapSize, rst[k]) >> 6) < len(bm) && (bm[int(preIdx(bitmapSize, rst[k]) >> 6)] >> uint64(preIdx(bitmapSize, rst[k]) & 63)) & 1 == 1
 //@   ensures forall k int :: 0 <= k && k < len(rst) - 1 ==> rst[k] < rst[k+1]
+// completeness (no gap): every node of a stored level whose bit (at its pre-order index) is set is returned
+//@   ensures forall b uint64, z int32 :: nodeOK(bitmapSize, b, z) && decSet(bitmapSize, bm, nodeP(bitmapSize, b, z)) ==> (exists k int :: 0 <= k && k < len(rst) && rst[k] == nodeP(bitmapSize, b, z))
 //@   ensures fresh(rst)
 //@   assigns nothing
+//@   reveal nodeP, nodeOK
 //@   loop 1
+//@     invariant len(rst) == dcnt(bitmapSize, bm, paths, rangeindex + 1)
+//@     invariant forall j int :: 0 <= j && j <= rangeindex && decSet(bitmapSize, bm, paths[j]) ==> 0 <= dcnt(bitmapSize, bm, paths, j) && dcnt(bitmapSize, bm, paths, j) < len(rst) && rst[dcnt(bitmapSize, bm, paths, j)] == paths[j]
+//@     use decSet_def(bitmapSize, bm, paths[rangeindex + 1])
+//@     use forall j int :: dcnt_mono(bitmapSize, bm, paths, j + 1, rangeindex + 1)
+//@     use forall j int :: dcnt_bound(bitmapSize, bm, paths, j)
 //@     invariant fresh(rst) && -1 <= rangeindex && rangeindex < len(paths) && regof(rst) != regof(paths) && len(rst) <= rangeindex + 1
-//@     invariant forall k int :: 0 <= k && k < len(rst) ==> stored(bitmapSize, rst[k]) && int(preIdx(bitmapSize, rst[k]) >> 6) < len(bm) && (bm[int(preIdx(bitmapSize, rst[k]) >> 6)] >> uint64(preIdx(bitmapSize, rst[k]) & 63)) & 1 == 1
+//@     invariant forall k int :: 0 <= k && k < len(rst) ==> stored(bitmapSize, rst[k]) && decSet(bitmapSize, bm, rst[k])
 //@     invariant forall k int :: 0 <= k && k < len(rst) - 1 ==> rst[k] < rst[k+1]
 //@     invariant len(rst) > 0 && rangeindex >= 0 ==> rst[len(rst)-1] <= paths[rangeindex]
